@@ -113,6 +113,16 @@ def runs(chk, tier, exe, d):
     recs = os.path.join(d, "runs.ndjson")
     nrand, maxs = (500, 3000) if tier == "quick" else (12000, 6000)
     vlib.sh([exe, "rand", str(vlib.seed()), str(nrand), str(maxs), recs, scratch], check=True, timeout=3000)
+    # enumerated short sequences (progen.hpp: corner values in areg / breg, then every pair - and every triple, sampled in the quick tier -
+    # over an alphabet of 18 instructions; and triples straight out of reset): state that an implementation keeps BETWEEN instructions
+    # (condition flags, fetch buffers, operand latches) shows only in sequences, never in a step from an injected state
+    PAIRS, BARE, TOTAL = 8 * 8 * 18 * 18, 18 ** 3, 8 * 8 * 18 * 18 + 18 ** 3 + 8 * 8 * 18 ** 3
+    srecs = os.path.join(d, "seqs1.ndjson"); srecs2 = os.path.join(d, "seqs2.ndjson")
+    vlib.sh([exe, "seqs", "0", str(PAIRS + BARE), "1", "200", srecs, scratch], check=True, timeout=3000)
+    vlib.sh([exe, "seqs", str(PAIRS + BARE + vlib.seed() % 37), str(TOTAL), "37" if tier == "quick" else "1", "200", srecs2, scratch], check=True, timeout=6000)
+    with open(recs, "a") as f:
+        f.write(open(srecs).read()); f.write(open(srecs2).read())
+    chk.set("enumerated_sequences", sum(1 for _ in open(srecs)) + sum(1 for _ in open(srecs2)))
     # the repository's own programs
     progs = corpus.repo_binaries(d, with_xhexb=(tier != "quick"))
     crecs = os.path.join(d, "cruns.ndjson")
@@ -138,7 +148,7 @@ def runs(chk, tier, exe, d):
             elif v["v"] == "recorder":
                 raise vlib.MachineryError("run recorder disagrees with spec about definedness: %s" % v)
             else:
-                chk.violation("run:%s:%s" % (v["id"] if not v["id"].startswith("rand") else "random-program", v["why"]),
+                chk.violation("run:%s:%s" % ("sequence" if v["id"].startswith("seq") else v["id"] if not v["id"].startswith("rand") else "random-program", v["why"]),
                               "hexsim run %s diverges from the HexISA trace at instruction %d: %s" % (v["id"], v["at"], v["why"]),
                               {"run.ndjson": src[i] + "\n", "how.txt": "RECS=run.ndjson OUT=o.ndjson tlc -config IsaRunV.cfg IsaRunV\n"})
     chk.add("runs_validated", nok + nundef)
